@@ -14,6 +14,15 @@ ID = "C15"
 LEVEL = "model_checking"
 
 
+def _raw_read(rd, kind, a, b):
+    try:
+        if kind == "all":
+            return rd.parse_all(a, b) if (a is not None or b is not None) else rd.parse_all()
+        return rd.parse_msg(a)
+    except Exception as ex:
+        return ex
+
+
 def run(ctx):
     sys.path.insert(0, os.path.join(ROOT, "harness", "py"))
     sys.path.insert(0, TOOLKIT)
@@ -54,19 +63,34 @@ def run(ctx):
         ddf = data_dump.DATADumpFile(path)
         starts, lens = [], []
         msgs = [D.mk_tx(d) if d["cls"] == "tx" else D.mk_rx(d) for d in origs]
-        if rng.random() < 0.5:
+        live = []          # reads on the writing object between appends: (messages appended so far, event)
+        mode = rng.random()
+        if mode < 0.4:
             for m in msgs:
                 ddf.f.flush()
                 starts.append(os.path.getsize(path))
                 ddf.append_msg(m)
             ddf.f.flush()
-        else:
+        elif mode < 0.6:
             ddf.append_all(msgs)
             ddf.f.flush()
             pos = 0
             for m in msgs:                      # sizes from an independent walk of what was written
                 starts.append(pos)
                 pos += 3 + len(m.gen_msg())
+        else:
+            # histories that interleave appends and reads on the same object
+            pos = 0
+            for k, m in enumerate(msgs):
+                starts.append(pos)
+                pos += 3 + len(m.gen_msg())
+                ddf.append_msg(m)
+                for _ in range(rng.randint(0, 3)):
+                    kind = rng.choice(["all", "all", "idx"])
+                    a = rng.choice([None] + list(range(k + 3))) if kind == "all" else rng.randrange(k + 2)
+                    b = rng.choice([None] + list(range(1, k + 3))) if kind == "all" else None
+                    live.append((k + 1, kind, a, b, _raw_read(ddf, kind, a, b)))
+            ddf.f.flush()
         data = open(path, "rb").read()
         for k in range(n):
             end = starts[k + 1] if k + 1 < n else len(data)
@@ -83,6 +107,7 @@ def run(ctx):
             ev.append(dict(e="full", msgs=fullproj))
         for k, d in enumerate(origs):
             key2start[(d["cls"], d["fn"], d["tn"])] = (starts[k], k)
+        live_pending = live
 
         def ident(ms):
             at, eq = [], True
@@ -98,6 +123,33 @@ def run(ctx):
                         eq = False
             return at, eq
 
+        for (k, kind, a, b, res) in live_pending:
+            cutk = starts[k] if k < n else len(data)
+            e = dict(e="read", cut=cutk, kind=kind, skip=-1, count=-1, idx=-1, eq=True, live=True)
+            if isinstance(res, Exception):
+                ctx.violation("C15/raises/%s/%s" % (kind, type(res).__name__), "%s raised %r between appends" % (kind, res), dict(read=[kind, a, b]))
+                continue
+            if kind == "all":
+                e["skip"] = -1 if a is None else a
+                e["count"] = -1 if b is None else b
+                if res is False:
+                    e["res"] = dict(t="false", at=[])
+                else:
+                    at, eq = ident(res)
+                    e["res"] = dict(t="list", at=at)
+                    e["eq"] = eq
+            else:
+                e["idx"] = a
+                if res is None:
+                    e["res"] = dict(t="none", at=[])
+                elif res is False:
+                    e["res"] = dict(t="false", at=[])
+                else:
+                    at, eq = ident([res])
+                    e["res"] = dict(t="msg", at=at)
+                    e["eq"] = eq
+            ev.insert(len(ev) - 1, e)         # before the "full" event: judged by the statement clauses first
+            ctx.count()
         cuts = range(len(data) + 1)
         boundary = set()
         for s, ln in zip(starts, lens):
@@ -164,7 +216,7 @@ def run(ctx):
             where = "full"
             if e["e"] == "read":
                 c = e["cut"]
-                where = "uncut" if c == len(t["cfg"]["file"]) else "cut"
+                where = "between-appends" if e.get("live") else ("uncut" if c == len(t["cfg"]["file"]) else "cut")
             ctx.violation("C15/%s/%s-%s" % (v["tag"], disc, where),
                           "file %s: event %d (%s) rejected: %s" % (v["id"], v["reached"] + 1, {k: x for k, x in e.items() if k != "msgs"}, v["tag"]),
                           dict(cfg={k: x for k, x in t["cfg"].items() if k != "orig"}, event=e if e["e"] == "read" else "full"))
